@@ -48,8 +48,8 @@ Proof.
     + eapply step_pr_bchead; eauto.
     + eapply step_pr_cbc; eauto.
     + eapply step_pr_bcxor; eauto.
-    + eapply (step_dead ina rb s t s' I); [rewrite Hpc; reflexivity | exact B].
-    + eapply (step_dead ina rb s t s' I); [rewrite Hpc; reflexivity | exact B].
+    + eapply step_oprobe; eauto.
+    + eapply step_owake; eauto.
     + eapply step_pc_rmw; eauto.
     + unfold gstep in B. rewrite Hpc in B. discriminate.
 Qed.
